@@ -57,7 +57,7 @@ def confirm(sid):
         run = re.findall(r"func (Test\w+)\(", demo)
         pat = "|".join(run) if run else "."
         race = "-race " if "-race" in demo or sid.startswith("C13") else ""
-        trim = "" if "introspection" in patch or "prometheus" in " ".join(files) else "-trimpath"  # the Prometheus plugin reads its callers' source positions: they must stay absolute
+        trim = "" if "introspection" in patch or "prometheus" in " ".join(files) or "prometheus" in pkgdir else "-trimpath"  # the Prometheus plugin reads its callers' source positions: they must stay absolute
         # baseline: demo passes without the change
         shutil.copy(os.path.join(sd, "demo_test.go.txt"), demo_path)
         rc, out = sh("go test %s %s-vet=off -count=1 -timeout 300s -run '%s' ." % (trim, race, pat), os.path.join(wt, pkgdir), timeout=400)
